@@ -154,7 +154,7 @@ def _prelude(spec, ctx):
         storage.release()
 
 
-def run_once_serial(cfg, *, max_workers=None, prelude=False, around_run=None):
+def run_once_serial(cfg, *, max_workers=None, prelude=False, around_run=None, warm_objects=False):
     """Run one E2 configuration on the real SerialRunner under the spy."""
     from .e2 import Obs
     spec = cfg.spec
@@ -162,13 +162,23 @@ def run_once_serial(cfg, *, max_workers=None, prelude=False, around_run=None):
     if prelude:
         _prelude(spec, ctx)
     built = Built(spec)
+    if warm_objects:
+        # the very same task objects have already been through an earlier, complete run_tasks
+        # call (other Lab, other storage, other epoch): nothing remembered on them may be reused
+        st0 = MemStorage()
+        try:
+            U.WORLD.reset(epoch=7)
+            labtech.Lab(storage=st0, runner_backend='serial', notebook=False, context=ctx).run_tasks(
+                list(built.canon), disable_progress=True, disable_top=True)
+        finally:
+            st0.release()
     storage = MemStorage()
     orig = lt_serial.run_or_load_task
     backend = SpyBackend(lt_serial.SerialRunnerBackend(), horizon=4 * spec.n + 8)
     lt_serial.run_or_load_task = _RecordRunOrLoad(backend.events, orig)
     try:
         precache(storage, spec, built, cfg.precached, ctx)
-        U.WORLD.reset(epoch=1, faults=[spec.labels[i] for i in cfg.faults])
+        U.WORLD.reset(epoch=1, faults=[spec.labels[i] for i in cfg.faults], fault_exc=cfg.fault_exc)
         req = [built.fresh(i) if fr else built.canon[i] for i, fr in cfg.requested]
         lab = labtech.Lab(storage=storage, runner_backend=backend, continue_on_failure=cfg.cof,
                           notebook=False, context=ctx, max_workers=max_workers)
